@@ -168,6 +168,7 @@ type concCheck struct {
 }
 
 func registerConc(cc concCheck, register func(string, reg.Check)) {
+	concSets[cc.id] = cc.scenarios
 	register(cc.id, func() int {
 		r := ev.Start(cc.id, ev.LevelMC, cc.quick, cc.thorough)
 		scs, err := cc.scenarios()
